@@ -204,6 +204,61 @@ func classifyLoop(l *loopInfo) loopClass {
 			return loopClass{"counted", fmt.Sprintf("monotone counter %s against loop-invariant bound %s, tested every iteration", describe(x), describe(y))}
 		}
 	}
+	// consuming a string: every iteration cuts the remaining input at a non-empty separator and
+	// continues with what follows it; the loop ends when the separator is not found. The
+	// remaining input gets strictly shorter (contract of strings.Cut / bytes.Cut: when found,
+	// len(after) ≤ len(s) − len(sep)).
+	for _, b := range blocks {
+		cond, val, ok := l.exitsOn(b)
+		if !ok || !l.everyIteration(b) {
+			continue
+		}
+		f := normFact(cond, true)
+		found := f.Cond
+		exitWhenFoundIs := val == f.Pol
+		// a flag carried to the loop test (`for more := true; more; { …, more = Cut(…) }`)
+		if phi, isPhi := found.(*ssa.Phi); isPhi && phi.Block() == l.header {
+			var carried ssa.Value
+			okShape := true
+			for i, e := range phi.Edges {
+				if l.blocks[l.header.Preds[i]] {
+					if carried != nil && carried != e {
+						okShape = false
+					}
+					carried = e
+				}
+			}
+			if okShape && carried != nil {
+				found = carried
+			}
+		}
+		ex, isEx := found.(*ssa.Extract)
+		if !isEx || ex.Index != 2 || exitWhenFoundIs {
+			continue
+		}
+		cut, isCall := ex.Tuple.(*ssa.Call)
+		if !isCall || (calleeName(&cut.Call) != "strings.Cut" && calleeName(&cut.Call) != "bytes.Cut") {
+			continue
+		}
+		sep, isC := constOf(cut.Call.Args[1])
+		src, isPhi := strip(cut.Call.Args[0]).(*ssa.Phi)
+		if !isC || sep == "" || !isPhi || src.Block() != l.header {
+			continue
+		}
+		okCarry := true
+		for i, e := range src.Edges {
+			if !l.blocks[l.header.Preds[i]] {
+				continue
+			}
+			after, isEx := e.(*ssa.Extract)
+			if !isEx || after.Tuple != ssa.Value(cut) || after.Index != 1 {
+				okCarry = false
+			}
+		}
+		if okCarry {
+			return loopClass{"consumed", fmt.Sprintf("the input %s is cut at %q every iteration and the loop ends when the separator is missing (strictly shorter remainder)", describe(src), sep)}
+		}
+	}
 	// visited set
 	for _, b := range blocks {
 		if !l.everyIteration(b) {
